@@ -379,32 +379,50 @@ pub fn write_b_workspace(dir: &Path, crate_prefix: &str, modules: &[(String, Str
     crates
 }
 
-/// Library crate that is only `cargo check`ed; files[i] = (module name, source).
+/// Workspace of library crates that are only `cargo check`ed (in parallel); files[i] = (module
+/// name, source) goes to crate i % ncrates. Module names are unique across the workspace, so
+/// diagnostics are attributed by file stem.
 pub fn write_v_crate(dir: &Path, name: &str, files: &[(String, String)], no_std: bool, deny_docs: bool) {
     let _ = std::fs::remove_dir_all(dir);
-    std::fs::create_dir_all(dir.join("src")).unwrap();
-    let mut lib = String::new();
-    if no_std {
-        writeln!(lib, "#![no_std]").unwrap();
-    }
-    if deny_docs {
-        writeln!(lib, "#![deny(missing_docs)]\n//! generated crate").unwrap();
-    }
-    writeln!(lib, "#![allow(dead_code, unused_imports, unused_variables, unused_mut, deprecated, unreachable_code, non_camel_case_types, unused_parens)]").unwrap();
-    for (m, src) in files {
-        std::fs::write(dir.join("src").join(format!("{}.rs", m)), src).unwrap();
-        if deny_docs {
-            writeln!(lib, "/// generated module\npub mod {};", m).unwrap();
-        } else {
-            writeln!(lib, "pub mod {};", m).unwrap();
+    std::fs::create_dir_all(dir).unwrap();
+    let ncrates = if files.len() >= 64 { 16 } else if files.len() >= 8 { 4 } else { 1 };
+    let mut members = Vec::new();
+    for c in 0..ncrates {
+        let cname = format!("{}_{}", name, c);
+        let cdir = dir.join(&cname);
+        std::fs::create_dir_all(cdir.join("src")).unwrap();
+        let mut lib = String::new();
+        if no_std {
+            writeln!(lib, "#![no_std]").unwrap();
         }
+        if deny_docs {
+            writeln!(lib, "#![deny(missing_docs)]\n//! generated crate").unwrap();
+        }
+        writeln!(lib, "#![allow(dead_code, unused_imports, unused_variables, unused_mut, deprecated, unreachable_code, non_camel_case_types, unused_parens)]").unwrap();
+        for (k, (m, src)) in files.iter().enumerate() {
+            if k % ncrates != c {
+                continue;
+            }
+            std::fs::write(cdir.join("src").join(format!("{}.rs", m)), src).unwrap();
+            if deny_docs {
+                writeln!(lib, "/// generated module\npub mod {};", m).unwrap();
+            } else {
+                writeln!(lib, "pub mod {};", m).unwrap();
+            }
+        }
+        std::fs::write(cdir.join("src/lib.rs"), lib).unwrap();
+        let toml = format!(
+            "[package]\nname = \"{}\"\nversion = \"0.0.0\"\nedition = \"2021\"\n\n[dependencies]\nbitbybit = {{ path = \"{}\" }}\narbitrary-int = \"1.3.0\"\n",
+            cname,
+            macro_path()
+        );
+        std::fs::write(cdir.join("Cargo.toml"), toml).unwrap();
+        members.push(format!("\"{}\"", cname));
     }
-    std::fs::write(dir.join("src/lib.rs"), lib).unwrap();
-    let toml = format!(
-        "[package]\nname = \"{}\"\nversion = \"0.0.0\"\nedition = \"2021\"\n\n[dependencies]\nbitbybit = {{ path = \"{}\" }}\narbitrary-int = \"1.3.0\"\n\n[workspace]\n\n[profile.dev]\ndebug = 0\nincremental = false\n\n[profile.release]\ndebug = 0\nincremental = false\n",
-        name,
-        macro_path()
+    let ws = format!(
+        "[workspace]\nresolver = \"2\"\nmembers = [{}]\n\n[profile.dev]\ndebug = 0\nincremental = false\n\n[profile.release]\ndebug = 0\nincremental = false\n",
+        members.join(", ")
     );
-    std::fs::write(dir.join("Cargo.toml"), toml).unwrap();
+    std::fs::write(dir.join("Cargo.toml"), ws).unwrap();
     std::fs::copy(format!("{}/engine/gen.Cargo.lock", VERIF), dir.join("Cargo.lock")).ok();
 }
